@@ -545,6 +545,46 @@ theorem C09_cycle_message_sound (cfg : Cfg) (wf : cfg.WF) (l : List Node) (h : c
     have hmem : n ∈ rest := List.mem_of_getLast? hlast
     exact ⟨n, rest, rfl, hc, hall n hmem, hall, closed_walk_connectorCycle wf (hall n hmem)⟩
 
+/-! ## connectors that route by pipeline id -/
+
+/-- **routing with selective connectors**: on an accepted configuration, with every connector delivering only to
+the next pipelines it selects by id (`Conn.sel`), a payload pushed into receiver `(s, r)` terminates with one
+delivery per configured route all of whose connector hops are selected — and nothing else.  With no selective
+connector this is `C09_delivery` (`flowEdges_eq_edges`). -/
+theorem C09_delivery_selective (cfg : Cfg) (wf : cfg.WF) (hb : build cfg = none) (s : Sig) (r : CompId)
+    (hn : Node.recv s r ∈ nodes cfg) :
+    ∃ k ws, deliver (succOf (flowEdges cfg)) k (Node.recv s r) = some ws ∧ ws.Nodup ∧
+      ∀ w, w ∈ ws ↔ (CfgRoute cfg s r w ∧ PairsOk (flowAllowed cfg) (Node.recv s r) w) := by
+  have hsort : sortable (succ cfg) (nodes cfg) = true := by
+    simp only [build] at hb
+    by_cases h1 : createNodesOk cfg = true
+    · by_cases h2 : sortable (succOf (edges cfg)) (nodes cfg) = true
+      · exact h2
+      · simp [h1, h2] at hb
+    · simp [h1] at hb
+  have hsub : ∀ n m, m ∈ succOf (flowEdges cfg) n → m ∈ succ cfg n := by
+    intro n m hm
+    have := mem_succOf.mp hm
+    simp only [flowEdges, List.mem_filter] at this
+    exact mem_succOf.mpr this.1
+  obtain ⟨ws, hws⟩ := peel_deliver_sub hsub _ _ (sortable_mem hsort hn)
+  have hspec := deliver_spec (flowEdges cfg) _ _ ws hws
+  refine ⟨_, ws, hws, hspec.1, fun w => ?_⟩
+  rw [hspec.2 w]
+  simp only [flowEdges]
+  rw [isRouteWalk_filter, C09_routing cfg wf s r w]
+
+/-- when no connector is selective the data flows along all edges of the graph -/
+theorem flowEdges_eq_edges (cfg : Cfg) (h : ∀ k, k ∈ cfg.conns → k.sel = none) : flowEdges cfg = edges cfg := by
+  simp only [flowEdges, List.filter_eq_self]
+  intro e _
+  obtain ⟨a, b⟩ := e
+  cases a <;> cases b <;> simp only [flowAllowed]
+  simp only [Cfg.selects, List.all_eq_true, Bool.or_eq_true]
+  intro k hk
+  rw [h k hk]
+  exact Or.inr rfl
+
 /-! ## validation -/
 
 theorem nodup_of_hasDup_false : ∀ l : List CompId, hasDup l = false → l.Nodup := by
@@ -610,6 +650,12 @@ example : (nodes exCfg).filter Node.isComp =
 example : (deliver (succ exCfg) 12 (Node.recv .traces 1)).map (·.map (fun w => (w.getLast?, trailOf w))) =
     some [(some (Node.exp .metrics 2), [Node.proc ⟨.traces, 0⟩ 1, Node.proc ⟨.traces, 0⟩ 2, Node.conn .traces .metrics 5, Node.proc ⟨.metrics, 0⟩ 1]),
           (some (Node.exp .traces 1), [Node.proc ⟨.traces, 0⟩ 1, Node.proc ⟨.traces, 0⟩ 2]),
+          (some (Node.exp .traces 1), [Node.proc ⟨.traces, 1⟩ 2])] := by decide
+
+/-- `exCfg` with connector 5 selecting only pipelines named 1: the route through metrics/0 disappears -/
+example : (deliver (succOf (flowEdges { exCfg with conns := [{ id := 5, supp := [(.traces, .metrics)], sel := some [1] }] })) 12
+      (Node.recv .traces 1)).map (·.map (fun w => (w.getLast?, trailOf w))) =
+    some [(some (Node.exp .traces 1), [Node.proc ⟨.traces, 0⟩ 1, Node.proc ⟨.traces, 0⟩ 2]),
           (some (Node.exp .traces 1), [Node.proc ⟨.traces, 1⟩ 2])] := by decide
 
 /-- a two-pipeline connector cycle across signals -/
